@@ -10,7 +10,7 @@ run_demo() { ( mkdir -p $T/m && cd $T && sed -e "s#/tmp/mut[23]\?/$ID#$T#g" $D/d
 dc=$(run_demo)
 if ! git -C $T/cpppo apply $D/patch.diff 2>/dev/null; then echo -e "$ID\t$M\tpatch-does-not-apply\t-\t-\t-\t-"; exit 0; fi
 dp=$(run_demo)
-res=$(cd /verif && VERIF_ALT_TREE=$T VERIF_OUT=$T/out ./check $ID --tier $TIER 2>&1); rc=$?
+res=$(cd /verif && VERIF_ALT_TREE=$T VERIF_OUT=$T/out timeout 1500 ./check $ID --tier $TIER 2>&1); rc=$?
 git -C $T/cpppo checkout -q -- .
 kind=$(echo "$res" | grep -c "no-failing-input-found")
 nv=$(echo "$res" | grep -c "^VIOLATION")
